@@ -20,6 +20,30 @@ class RecABChild(ep.RecAB):
     """Inherits its two subscriptions."""
 
 
+class RecABOwn(ep.RecAB):
+    """Like ep.RecAB, and remembers ON THE INSTANCE what it was handed."""
+
+    def __init__(self, sink=None):
+        super().__init__(sink)
+        self.mine = []
+
+    def process_EvA(self, event):
+        self.mine.append(event.uid)
+        super().process_EvA(event)
+
+    def process_EvB(self, event):
+        self.mine.append(event.uid)
+        super().process_EvB(event)
+
+
+class RecBuildsFeatures(ep.Rec):
+    """A user state that BUILDS its features in its own __init__ (the caller hands over no feature objects): after every
+    reset of the state, state.features holds new objects - the ones that must be served from then on."""
+
+    def __init__(self, sink=None, sink2=None):
+        ep.Rec.__init__(self, sink, features=[RecABOwn(sink2)])
+
+
 PROP = "C04"
 LEVEL = "exploration"
 ENGINE = "EP"
@@ -38,7 +62,7 @@ ASSUMPTIONS = ["when a new-date notification must be sent is not stated by the p
                "episodes aborted by TrackRecord's duplicate-timestamp rejection (DESIGN 4.2-c) are judged on the delivered prefix"]
 REQUIRED = ["C04:new-date-notifications", "C04:exchange-exactly-once", "C04:delivery-sequence", "C04:second-observer", "C04:timestamps-nondecreasing", "C04:env-notification-stamp",
             "C04:clock-in-callback", "C04:rebalance-stamp", "C04:latency-refused"]
-REQUIRED_CATS = ["month-like-gaps", "refused-construction-on-the-same-transmitter", "grid-extended-then-second-env", "observer:inherited-callbacks", "second-env-same-transmitter", "events-added-on-empty-timesteps-then-second-env", "add_timesteps", "add_custom_events", "latency>0", "markov", "warmup", "late-fold", "episode-length", "event-after-grid", "event-before-grid",
+REQUIRED_CATS = ["state-builds-its-own-features", "month-like-gaps", "refused-construction-on-the-same-transmitter", "grid-extended-then-second-env", "observer:inherited-callbacks", "second-env-same-transmitter", "events-added-on-empty-timesteps-then-second-env", "add_timesteps", "add_custom_events", "latency>0", "markov", "warmup", "late-fold", "episode-length", "event-after-grid", "event-before-grid",
                  "event-at-latency-bound"]
 REQUIRED_HITS = ["Broker.rebalance"]
 TECHNIQUE = "runtime monitoring: recording observer + hook markers compared with an independent delivery-schedule model"
@@ -160,9 +184,14 @@ def case(ctx, i, tier):
     inherit = rng.random() < 0.5
     RecCls, RecABCls = (RecChild, RecABChild) if inherit else (ep.Rec, ep.RecAB)
     ctx.cat("observer:inherited-callbacks" if inherit else "observer:own-callbacks")
+    builds = rng.random() < 0.25
+    if builds:
+        ctx.cat("state-builds-its-own-features")
     env = TradingEnv(action_space=BoxPortfolio([ETF("X"), ETF("Y")]), transmitter=tr,
-                     state=RecCls(sink, features=[RecABCls(sink2)]), latency=L, episode_length=eplen)
+                     state=(RecBuildsFeatures(sink, sink2) if builds else RecCls(sink, features=[RecABCls(sink2)])),
+                     latency=L, episode_length=eplen)
     sink.env = env
+    env0 = env
     if L > 0:
         ctx.cat("latency>0")
     if markov:
@@ -312,6 +341,11 @@ def case(ctx, i, tier):
             ab = {e.uid for e in evs if isinstance(e, (ep.EvA, ep.EvB))}
             exp2 = [x[1] for x in exp if x[0] == "M" and x[1] in ab]
             ctx.check("C04:second-observer", [x[1] for x in sink2.log] == exp2, got=[x[1] for x in sink2.log][:30], want=exp2[:30])
+            if builds and env is env0:
+                # ... and it is the feature object the state owns NOW that was served
+                owned = env.state.features[0]
+                ctx.check("C04:second-observer", list(owned.mine) == exp2, got=list(owned.mine)[:30], want=exp2[:30],
+                          note="the feature currently owned by the state", fold=fold)
             last = None
             last_m = None
             prev_ev, n_newdate = None, 0
